@@ -187,6 +187,10 @@ func genNested(t *rapid.T) nestedCase {
 		c.OuterWhere = genPred(t, "outerPred", len(c.Inner) > 0)
 	}
 
+	if chance(t, "nearDuplicates", 20) {
+		c.Outer = genNearDuplicates(t, call)
+		return c
+	}
 	nOuter := pick(t, "nOuter", []int{1, 2, 2, 3})
 	for k := 0; k < nOuter; k++ {
 		oc := call(allFns())
@@ -229,6 +233,110 @@ func genNested(t *rapid.T) nestedCase {
 		c.Outer = append(c.Outer, oc)
 	}
 	return c
+}
+
+// genNearDuplicates: 2-3 calls with the same function and window that differ only in one literal
+// (letter case, edge blanks, quoting, numeric spelling): the LAG/LEAD default, the LISTAGG separator
+// or the literal of a COALESCE(s, literal) argument. Each is a call of its own.
+func genNearDuplicates(t *rapid.T, call func(fns []string) anaCase) []anaCase {
+	kind := pick(t, "dupKind", []string{"lag_default_text", "lag_default_number", "listagg_separator", "coalesce_argument", "coalesce_argument"})
+	var base anaCase
+	var variants []func(c *anaCase)
+	setDefault := func(v val.Val) func(c *anaCase) { return func(c *anaCase) { c.Default = v } }
+	switch kind {
+	case "lag_default_text", "lag_default_number":
+		base = call(lagFns)
+		base.HasK, base.HasDefault, base.IgnoreNulls = true, true, false
+		base.K = pick(t, "dupOffset", []int{1, 1, 2})
+		vals := []val.Val{val.Str("zz"), val.Str("ZZ"), val.Str("Zz"), val.Str("zz "), val.Str(" zz")}
+		if kind == "lag_default_number" {
+			vals = []val.Val{val.Int(1), val.Float(1), val.Str("1"), val.Int(-1), val.Float(-1), val.Str("-1")}
+		}
+		for _, v := range vals {
+			variants = append(variants, setDefault(v))
+		}
+	case "listagg_separator":
+		base = call([]string{"LISTAGG"})
+		base.HasSep = true
+		for _, sep := range []string{"x", "X", " x", "x ", "xy", "Xy"} {
+			sep := sep
+			variants = append(variants, func(c *anaCase) { c.Sep = sep })
+		}
+	default:
+		base = call([]string{"FIRST_VALUE", "LAST_VALUE", "NTH_VALUE", "LAG", "LEAD", "LISTAGG", "JSON_AGG", "COUNT"})
+		base.Distinct = false
+		if isIn(base.Fn, lagFns) && base.HasDefault && base.Default.K == "I" {
+			base.Default = val.Str("zz") // keep the result column of one type
+		}
+		for _, l := range coalesceLits {
+			l := l
+			variants = append(variants, func(c *anaCase) { c.Arg = "COALESCE(s, " + l + ")" })
+		}
+	}
+	normalizeCall(&base)
+	n := pick(t, "nDup", []int{2, 2, 3})
+	order := rapid.Permutation(variants).Draw(t, "dupVariants")
+	var out []anaCase
+	for i := 0; i < n && i < len(order); i++ {
+		c := base
+		c.Partition = append([]string(nil), base.Partition...)
+		c.Order = append([]orderItem(nil), base.Order...)
+		order[i](&c)
+		out = append(out, c)
+	}
+	return out
+}
+
+// nearDuplicate: the two calls are the same except for a literal; the result names what differs.
+func nearDuplicate(a, b anaCase) (string, bool) {
+	x, y := a, b
+	x.Default, y.Default = val.Null, val.Null
+	x.Sep, y.Sep = "", ""
+	x.Arg, y.Arg = "", ""
+	if fnSQL(x) != fnSQL(y) || fnSQL(a) == fnSQL(b) {
+		return "", false
+	}
+	diff := func(p, q string) string {
+		switch {
+		case strings.EqualFold(p, q):
+			return "letter_case"
+		case strings.TrimSpace(p) == strings.TrimSpace(q):
+			return "blanks"
+		case strings.EqualFold(strings.TrimSpace(p), strings.TrimSpace(q)):
+			return "letter_case+blanks"
+		}
+		return "other"
+	}
+	switch {
+	case a.Arg != b.Arg:
+		la, ok1 := coalesceLiteral(a.Arg)
+		lb, ok2 := coalesceLiteral(b.Arg)
+		if !ok1 || !ok2 {
+			return "", false
+		}
+		if la == lb {
+			return "quoting", true
+		}
+		return diff(la, lb), true
+	case a.Sep != b.Sep:
+		return diff(a.Sep, b.Sep), true
+	case a.Default != b.Default:
+		if a.Default.K == "S" && b.Default.K == "S" {
+			if fa, ok := ref.AsFloat(a.Default); ok {
+				if fb, ok := ref.AsFloat(b.Default); ok && fa == fb {
+					return "numeric_spelling", true
+				}
+			}
+			return diff(a.Default.S, b.Default.S), true
+		}
+		fa, ok1 := ref.AsFloat(a.Default)
+		fb, ok2 := ref.AsFloat(b.Default)
+		if ok1 && ok2 && fa == fb {
+			return "numeric_spelling", true
+		}
+		return "other", true
+	}
+	return "", false
 }
 
 func selectList(perm []int) string {
@@ -362,7 +470,7 @@ func nestedInDomain(c nestedCase) bool {
 				return false
 			}
 		}
-		if (oc.Arg == "a1" || oc.Arg == "a2") && !colOK(oc.Arg, lim) {
+		if !argInDomain(oc, true) || ((oc.Arg == "a1" || oc.Arg == "a2") && !colOK(oc.Arg, lim)) {
 			return false
 		}
 	}
@@ -561,6 +669,18 @@ func checkNested(c nestedCase) (fw.Outcome, *fw.Violation) {
 	if sharedOuter {
 		o.Classes = append(o.Classes, "outer_calls_share_columns")
 	}
+	dupKinds := map[string]bool{}
+	for i := range c.Outer {
+		for j := i + 1; j < len(c.Outer); j++ {
+			if what, dup := nearDuplicate(c.Outer[i], c.Outer[j]); dup {
+				dupKinds[what] = true
+			}
+		}
+	}
+	for _, what := range fw.SortedKeys(dupKinds) {
+		o.Classes = append(o.Classes, "near_duplicate_calls:"+what)
+		fw.AddExtra("nested/near_duplicate_calls:"+what, 1)
+	}
 
 	// ---- csvq -------------------------------------------------------------
 	s, err := run.NewSess(run.Opt{Dir: fw.WorkDir(), CPU: c.CPU})
@@ -641,6 +761,18 @@ func checkNested(c nestedCase) (fw.Outcome, *fw.Violation) {
 		cc.Rows = s3
 		res := ref.AnalyticCheck(buildInput(cc), got[k])
 		if res.Sig != "" {
+			// a near-duplicate call that shows another call's column?
+			for j, other := range c.Outer {
+				what, dup := nearDuplicate(oc, other)
+				if j == k || !dup {
+					continue
+				}
+				cj := other
+				cj.Rows = s3
+				if ref.AnalyticCheck(buildInput(cj), got[k]).Sig == "" {
+					return o, fw.V("near_duplicate_analytic_calls_merged:"+what, "%s\n  r%d shows the values of r%d (the calls differ only in a literal: %s); r%d: %s\n  rows the outer call sees (id,p1,p2,o1,o2,v,s,a..)=%v", sql, k+1, j+1, what, k+1, res.Msg, clipRows(s3))
+				}
+			}
 			return o, fw.V("nested_"+res.Sig, "%s\n  r%d: %s\n  rows the outer call sees (id,p1,p2,o1,o2,v,s,a..)=%v", sql, k+1, res.Msg, clipRows(s3))
 		}
 	}
